@@ -1,13 +1,14 @@
 #!/bin/bash
 # witness for C18 / U-DERIVE (fix 625b472): a type the derive ACCEPTS must not be rejected by a later stage because of the generated code.
+#   tup: a struct with a tuple field (fix 64a7fcd: rejected by the derive itself)
 #   ts: #[derive(ToString)] struct P { x: float64, ok: bool, n: int64 }      tj: #[derive(ToJson)] struct Q { x: float64, ok: bool, n: uint8, u: unit }
 # exit 1 when the compiler accepts the derive and then reports an error for the generated method.   usage: prim_fields.sh [compiler]
 BIN=${1:-/repo/target/debug/compiler}
 D=$(cd "$(dirname "$0")/prim_fields" && pwd)
 st=0
-for c in ts tj; do
+for c in ts tj tup; do
   out=$("$BIN" run --dump-go "$D/$c/main.gom" 2>&1)
-  if grep -q '^error (derive)' <<<"$out"; then echo "$c: rejected by the derive itself (a diagnostic of the derive stage)"; continue; fi
+  if grep -q '^error.*#\[derive(' <<<"$out"; then echo "$c: rejected by the derive itself (its own diagnostic)"; continue; fi
   if grep -q '^error' <<<"$out"; then echo "WRONG: $c: accepted by the derive, rejected later: $(grep -m1 '^error' <<<"$out")"; st=1; fi
 done
 [ $st = 0 ] && echo "ok: the derived methods type-check"
